@@ -353,7 +353,7 @@ pub fn subs() -> Vec<Box<dyn Sub>> {
             rule: "sequences of 0..=30 builder calls over the 22 slots with generated contents (string lengths 0..=40, array lengths 0..=5, marker field values; constructor preconditions respected: module end > start, EFI stride != 0, custom type > 21); enumerated: empty, all singletons, all ordered pairs, triples (a third of them in quick, all in thorough), the full set in both orders. Model: single-valued slot -> last call, repeatable slots (module, SMBIOS, custom) -> all calls in order. Oracle: 8-aligned, loads, total size == byte length == header word, final 8 bytes are the end tag, reference walk minus the end tag == supplied tag images (bytes[..size] captured before the tag is moved in) as a multiset, call order inside each repeatable kind. Non-trivial = an overridden single-valued call, >=2 repeatable tags, or a tag size not a multiple of 8; distinct by call list",
             profiles: Profiles::Both,
             quick: 40000,
-            thorough: 600000,
+            thorough: 2000000,
             strategy,
             enumerate: Some(enumerate),
             enum_exhaustive: false,
